@@ -20,7 +20,11 @@
    to it when its resume succeeds (it may notice the outage before or after the redial: /repo
    741ede2).  Granularity: a flush is atomic with the transport write of its chunk (the harness
    awaits the broker's reception before the next step); the List of run(isResume) is atomic with
-   the successful resume (the harness awaits the library's List call before it goes on). *)
+   the successful resume (the harness awaits the library's List call before it goes on).
+   No event for a late cleanup of the previous run: since /repo e9acd3a (finding F44) readAckLoop
+   waits for readResultLoop and readAliasLoop before it returns, and run waits for readAckLoop, so
+   the waiter table is wiped before resume() can register a waiter of the next run - the waiters of
+   one run end at EDetect and never later. *)
 From Coq Require Import List NArith Bool.
 From Iscp Require Import Lib.ListMap Model.Upstream Model.Storage.
 Import ListNotations.
